@@ -42,6 +42,14 @@ static const cpucfg cpusim_named[] = {
 };
 #define CPUSIM_NNAMED ((int) (sizeof cpusim_named / sizeof cpusim_named[0]))
 
+#ifdef CPUSIM_DLSYM   /* shared-library build: the real stub addresses come from dlsym (a direct reference would bind to a PLT entry of the executable) */
+static struct cpusim_entry { const char *name; uint8_t *stub; void **slot; uint8_t *mbinit; void (*resolver)(void); } cpusim_ent[] = {
+#define X(s) { #s, 0, 0, 0, 0 },
+	V_DISPATCHED_LIST(X)
+#undef X
+	{ 0, 0, 0, 0, 0 }
+};
+#else
 #define X(s) extern char cpusim_ent_##s[] __asm__(#s);
 V_DISPATCHED_LIST(X)
 #undef X
@@ -51,6 +59,7 @@ static struct cpusim_entry { const char *name; uint8_t *stub; void **slot; uint8
 #undef X
 	{ 0, 0, 0, 0, 0 }
 };
+#endif
 static cpucfg cpusim_cur;
 static volatile int cpusim_tracing;
 static volatile long cpusim_steps, cpusim_ncpuid, cpusim_nxgetbv, cpusim_xgetbv_without_osxsave;
@@ -89,6 +98,9 @@ static void cpusim_init(void)
 	static int done; if (done) return; done = 1;
 	struct sigaction sa; memset(&sa, 0, sizeof sa); sa.sa_sigaction = cpusim_on_trap; sa.sa_flags = SA_SIGINFO | SA_ONSTACK; sigaction(SIGTRAP, &sa, 0);
 	for (struct cpusim_entry *e = cpusim_ent; e->name; e++, cpusim_n++) {
+#ifdef CPUSIM_DLSYM
+		e->stub = dlsym(RTLD_DEFAULT, e->name); if (!e->stub) v_harness_fail("cpusim: %s not exported by the shared library", e->name);
+#endif
 		uint8_t *st = e->stub;
 		if (memcmp(st, "\xf3\x0f\x1e\xfa\xff\x25", 6)) v_harness_fail("cpusim: stub of %s has unexpected layout", e->name);
 		int32_t disp; memcpy(&disp, st + 6, 4); e->slot = (void **) (st + 10 + disp); e->mbinit = *e->slot;
